@@ -32,7 +32,7 @@ def tlc_accepts(module, cfg, traces, tag="ACC", batch=3000, deque=False):
     return out, states
 
 
-LEVEL_A = {"memlog": ("MemLogA", "MemLogA.cfg"), "filedest": ("FileConcA", "FileConcA_loose.cfg"), "handover": ("HandoverA", "HandoverA.cfg"),
+LEVEL_A = {"handover_cap": ("HandoverCapA", "HandoverCapA.cfg"), "memlog": ("MemLogA", "MemLogA.cfg"), "filedest": ("FileConcA", "FileConcA_loose.cfg"), "handover": ("HandoverA", "HandoverA.cfg"),
            "once": ("OnceA", "OnceA.cfg"), "writer": ("WriterA", "WriterA.cfg"), "fanout": ("FanoutA", "FanoutA.cfg"), "regrace": ("RegA", "RegA.cfg"), "writer_stall": ("StallA", "StallA.cfg")}
 
 
